@@ -903,9 +903,10 @@ def cli_image(s_, o):
 
 def tape_str_term(t, cs):
     """the tape name as the model's string: printable ASCII as it is, else the bytes of its encoding in the output charset"""
-    if all(32 <= ord(ch) < 127 for ch in t):
-        return cstr(t)
-    return "(bstr %s)" % C.zlist(tape_encode(t, cs or "bk"))
+    enc = tape_encode(t, cs or "bk")
+    if all(32 <= ord(ch) < 127 for ch in t) and (enc is None or enc == t.encode("ascii")):
+        return cstr(t)      # (under utf-16 / utf-16-le even an ASCII name encodes to two bytes per character: take the bytes)
+    return "(bstr %s)" % C.zlist(enc)
 
 
 def cli_term(s_, o, model):
